@@ -214,6 +214,10 @@ def _install(ctx):
 
     def run_molecule(self, meta_molecule):
         mol = self.mol_idx
+        # attempts that neither place nor test anything do not consume the other caps: bound them as well
+        ctx.attempt_calls = getattr(ctx, "attempt_calls", 0) + 1
+        if ctx.attempt_calls > 3000:
+            raise SimAbort("attempt cap exceeded (no progress)")
         _oracle_attempt_begin(ctx, self, meta_molecule)
         ctx.cur_attempt = {"mol": mol, "proc": self}
         ctx.attempt_grows = 0
@@ -930,7 +934,21 @@ def run(job, props=("C03", "C04", "C05", "C06", "C07", "C15", "C17"), keep_dir=N
         saved = _install(ctx)
         random.seed(sysrng.getrandbits(32))
         np.random.seed(sysrng.getrandbits(32))
-        if job.get("cwd_decoy"):
+        if job.get("rel_inputs") and job.get("coord_text") is not None and not job.get("cwd_decoy"):
+            # the input structure is addressed by a RELATIVE path from another working directory; a different file of
+            # the same name lies next to the topology
+            work = os.path.join(workdir, "elsewhere")
+            os.makedirs(work, exist_ok=True)
+            key = "coordpath_meta" if "coordpath_meta" in kw and job.get("coord_kind") == "meta" else "coordpath"
+            base = os.path.basename(str(kw[key]))
+            with open(os.path.join(work, base), "w") as fh:
+                fh.write(job["coord_text"])
+            with open(os.path.join(workdir, base), "w") as fh:
+                fh.write(job["rel_decoy_text"])
+            kw[key] = Path(base)
+            os.chdir(work)
+            ctx.probe("relative_input_path_with_decoy_next_to_topology")
+        elif job.get("cwd_decoy"):
             # the process works in another directory that holds different files under the names of the included .itp
             decoy_dir = os.path.join(workdir, "elsewhere")
             os.makedirs(decoy_dir, exist_ok=True)
